@@ -571,5 +571,11 @@ ASSUMPTIONS = {
     "A-DICT": "dict iteration order is insertion order",
     "A-PARMAP": "a comprehension whose element call writes only its own element's data dict is encoded as a parallel map: the callee's postcondition is taken against the state before the comprehension (distinct dicts are an obligation; independence of the postcondition from other dicts is assumed)",
     "A-JV": "JSON-like values inside event data are opaque values with equality",
+    "A-CLOCK": "datetime.now() readings are monotone: every reading is >= every earlier one (the specification's clock_now() is the latest lower bound)",
+    "A-GEN": "a generator consumed to exhaustion by its caller is executed eagerly, its yields collected in order into a ghost list",
+    "A-ISO": "iso8601.parse_date returns the aware datetime its text denotes, with a whole-minute UTC offset, or raises ParseError",
+    "A-RT1": "iso8601.parse_date(d.isoformat()) == d for every aware datetime d",
+    "A-RT2": "timedelta(seconds=td.total_seconds()) == td for |td| <= 270 years (exhaustively cross-checked on samples, not proved)",
+    "A-JSON": "json.dumps is a function of the value (for a dict: of its key/value map) and json.loads(json.dumps(m)) has the map m; nothing else is assumed about the text",
     "T-SOLVER": "z3 / cvc5 answer unsat only for unsatisfiable queries; the VC generator itself (guarded by cross-checks and planted-failure tests)",
 }
